@@ -127,7 +127,7 @@ func c01Class(f, topic string, got, want []string) string {
 }
 
 func runC01(c *fw.Ctx) {
-	c.Rule = "(1) trie level: every valid filter of <=4 levels over {a,b,c,+,#,''} ('#' last only) alone x every topic of <=4 levels over {a,b,c,''} - complete; filter sets of size 2-4 (all pairs in the thorough tier, seeded sample in quick) inserted in several orders and through subscribe/unsubscribe/re-subscribe histories ending in the same active set, with malformed filters ('#' not last) as bystanders; oracle = MQTT 3.1.1 4.7 matcher on level arrays, results compared as multisets. (2) replicated index: seeded Create/Delete histories over 3 sessions x filters, ByPattern(topic) compared with the model after every step. (3) end to end: broker node over pipes, 3-5 QoS 0 subscriber sessions with generated filter sets (incl. unsubscribe/re-subscribe histories), a QoS 1 publisher sending uniquely tagged payloads and waiting for each PUBACK, sentinel barrier; per session the multiset of received (topic,tag) must be one copy per matching active filter. distinct = (filter set, order/history, topic); non-trivial = the set has at least one matching and one non-matching (filter,topic) pair"
+	c.Rule = "(1) trie level: every valid filter of <=4 levels over {a,b,c,+,#,''} ('#' last only) alone x every topic of <=4 levels over {a,b,c,''} - complete; filter sets of size 2-4 (all pairs in the thorough tier, seeded sample in quick) inserted in several orders and through subscribe/unsubscribe/re-subscribe histories ending in the same active set, with malformed filters ('#' not last) as bystanders; oracle = MQTT 3.1.1 4.7 matcher on level arrays, results compared as multisets; Iterate must list exactly the active set. (2) replicated index: seeded Create/Delete histories over 3 sessions x filters, ByPattern(topic) compared with the model after every step, then at a second replica that joins through the full-state exchange and at the first after the echoed exchange and a second delivery of every broadcast. (3) end to end: broker node over pipes, 3-5 QoS 0 subscriber sessions with generated filter sets (incl. unsubscribe/re-subscribe histories), a QoS 1 publisher sending uniquely tagged payloads and waiting for each PUBACK, sentinel barrier; per session the multiset of received (topic,tag) must be one copy per matching active filter. distinct = (filter set, order/history, topic); non-trivial = the set has at least one matching and one non-matching (filter,topic) pair"
 	c.Assume("'$'-prefixed topics are outside the alphabets; the empty string is neither a topic nor a filter")
 	workers := runtime.NumCPU()
 	fsyms := []string{"a", "b", "c", "+", "#", ""}
@@ -252,6 +252,20 @@ func runC01(c *fw.Ctx) {
 					report("trie-set", set, history, topic, got, want)
 				}
 			}
+			// the enumeration the full-state exchange is built from lists exactly the active set
+			all := []string{}
+			t.Iterate(func(b []byte) {
+				if len(b) > 0 && model.ValidFilter(string(b)) {
+					all = append(all, string(b))
+				}
+			})
+			sort.Strings(all)
+			wantAll := append([]string{}, set...)
+			sort.Strings(wantAll)
+			if strings.Join(all, "\x00") != strings.Join(wantAll, "\x00") {
+				c.Violation("trie-set:enumeration", fmt.Sprintf("trie-set: active filters %q (%s): Iterate lists %q", set, history, all),
+					map[string]interface{}{"active": set, "history": history, "observed": all, "expected": wantAll})
+			}
 		}
 	}
 	if c.Quick() {
@@ -373,6 +387,40 @@ func c01Index(c *fw.Ctx) {
 				c.Violation("index:mismatch", fmt.Sprintf("replicated index after %v: ByPattern(%q) = %q, want %q", trace, topic, got, want),
 					map[string]interface{}{"history": trace, "topic": topic, "observed": got, "expected": want})
 				break
+			}
+		}
+		// a node that joins later learns the index through the full-state exchange; the exchange is
+		// echoed back and every broadcast is delivered a second time: lookups stay the same everywhere
+		late := kit.NewReplica(2)
+		bcasts := r.Drain()
+		late.S.Distributor().MergeRemoteState(r.S.Distributor().LocalState(true), true)
+		r.S.Distributor().MergeRemoteState(late.S.Distributor().LocalState(false), false)
+		for _, b := range bcasts {
+			r.Deliver(b)
+			late.Deliver(b)
+		}
+		late.Drain()
+		for _, rep := range []*kit.Replica{r, late} {
+			for _, topic := range ts {
+				got := []string{}
+				for _, sub := range rep.S.Subscriptions().ByPattern([]byte(topic)) {
+					got = append(got, fmt.Sprintf("%s %s q%d", sub.SessionID, sub.Pattern, sub.QoS))
+				}
+				want := []string{}
+				for k, q := range active {
+					if model.Match(k.f, topic) {
+						want = append(want, fmt.Sprintf("%s %s q%d", k.s, k.f, q))
+					}
+				}
+				sort.Strings(got)
+				sort.Strings(want)
+				c.Observe("index_lookups", 1)
+				if strings.Join(got, ";") != strings.Join(want, ";") {
+					who := map[uint64]string{1: "the originating node after the echoed exchange and duplicate deliveries", 2: "a node that joined later (full-state exchange)"}[rep.ID]
+					c.Violation("index:exchange-mismatch", fmt.Sprintf("replicated index after %v: ByPattern(%q) at %s = %q, want %q", trace, topic, who, got, want),
+						map[string]interface{}{"history": trace, "topic": topic, "observed": got, "expected": want, "replica": rep.ID})
+					break
+				}
 			}
 		}
 		c.Case("index|"+strings.Join(trace, " "), len(active) > 0)
